@@ -2,6 +2,7 @@ package checks
 
 import (
 	"reflect"
+	"sort"
 	"strings"
 
 	"github.com/mithrandie/csvq/lib/parser"
@@ -104,9 +105,9 @@ func c18FamURL(s *c18State) bool {
 	return true
 }
 
-// c18URLBeforeDelimiter: the print of q holds a URL of q's tree with one of the printer's separators right behind it
-// (used to name the class of a failed round trip, not to decide it).
-func c18URLBeforeDelimiter(q parser.QueryExpression) bool {
+// c18URLBeforeDelimiter: the scanner does not read from the print of q the URLs that q's tree holds - one of the
+// printer's separators behind a URL became part of it (used to name the class of a failed round trip, not to decide it).
+func c18URLBeforeDelimiter(q parser.QueryExpression, m c18Mode) bool {
 	var raws []string
 	var walk func(v reflect.Value)
 	walk = func(v reflect.Value) {
@@ -147,21 +148,28 @@ func c18URLBeforeDelimiter(q parser.QueryExpression) bool {
 	if len(raws) == 0 {
 		return false
 	}
-	text := q.String()
-	for _, r := range raws {
-		if r == "" {
-			continue
+	var read []string
+	func() {
+		defer func() { _ = recover() }()
+		sc := new(parser.Scanner).Init(q.String(), "", m.Prep, m.Ansi)
+		for i := 0; i < 100000; i++ {
+			tok, err := sc.Scan()
+			if err != nil || tok.Token == parser.EOF {
+				return
+			}
+			if tok.Token == parser.URL {
+				read = append(read, tok.Literal)
+			}
 		}
-		for from := 0; ; {
-			i := strings.Index(text[from:], r)
-			if i < 0 {
-				break
-			}
-			end := from + i + len(r)
-			if end < len(text) && (text[end] == ',' || text[end] == ')') {
-				return true
-			}
-			from += i + 1
+	}()
+	sort.Strings(raws)
+	sort.Strings(read)
+	if len(raws) != len(read) {
+		return true
+	}
+	for i := range raws {
+		if raws[i] != read[i] {
+			return true
 		}
 	}
 	return false
